@@ -474,6 +474,50 @@ def mech_position_index(site):
     return "index returned by position() on the same container (in bounds by construction)"
 
 
+def mech_range_index(site):
+    """`v[i]` inside `for i in 0..v.len()` over the same container, with i unmodified: in bounds"""
+    if site.kind != "api:index" or site.call is None or len(site.call.args) < 2:
+        return None
+    fn = site.fn
+    idx = site.call.args[1]
+    if idx.get("k") not in ("copy", "move") or idx.get("ty") != "usize":
+        return None
+    os_ = F.origins(fn, idx, depth=10, through_calls=False)
+    nxt = [o.call for o in os_ if o.kind == "call" and re.search(r"Iterator for core::ops::range::Range<A>>::next$", short(o.call.name))]
+    if len(nxt) != 1 or any(o.kind in ("binop", "unop", "const", "cast", "arg") for o in os_) or \
+            any(o.kind == "call" and o.call is not nxt[0] for o in os_):
+        return None
+    cont = _leaf_ids(fn, site.call.args[0])
+    if not cont:
+        return None
+    # the range the iterator was built from
+    rng = None
+    for o in F.origins(fn, nxt[0].args[0], depth=10):
+        if o.kind == "aggr" and o.place is not None:
+            for _, st in F._assign_defs(fn).get(o.place["l"], []):
+                if st["rv"]["k"] == "aggr" and (st["rv"].get("adt") or "").endswith("ops::range::Range") and len(st["rv"]["ops"]) == 2:
+                    rng = st["rv"]["ops"]
+    if rng is None:
+        return None
+    hi = rng[1]
+    if hi.get("k") not in ("copy", "move"):
+        return None
+    lens = [o.call for o in F.origins(fn, hi, depth=8, through_calls=False) if o.kind == "call"]
+    if len(lens) != 1 or not re.search(r"^alloc::vec::Vec::len$|^core::slice::<impl \[T\]>::len$", short(lens[0].name)) or \
+            any(o.kind in ("binop", "const", "arg") for o in F.origins(fn, hi, depth=8, through_calls=False)):
+        return None
+    if not (_leaf_ids(fn, lens[0].args[0]) & cont) or \
+            F.source_fields(fn, lens[0].args[0], depth=8) != F.source_fields(fn, site.call.args[0], depth=8):
+        return None
+    roots = set(x[1] for x in cont if x[0] in ("place", "arg"))
+    after = fn.reachable_from(lens[0].bb)
+    for i, st in fn.stmts():
+        if i in after and st["k"] == "assign" and st["rv"]["k"] == "ref" and st["rv"].get("bk") == "mut" and st["rv"]["pl"]["l"] in roots and \
+                not [e for e in st["rv"]["pl"]["p"] if isinstance(e, dict)]:
+            return None
+    return "index produced by `0..v.len()` over the same container (in bounds by construction)"
+
+
 def mech_lengths(site):
     if site.kind == "cast" and site.stmt is not None:
         rv = site.stmt["rv"]
@@ -923,7 +967,7 @@ def run_inventory(R, rid, root_name, desc, restrict=None):
     for key in sorted(by_key):
         ss = by_key[key]
         for idx, s in enumerate(sorted(ss, key=lambda s: (s.file, s.line))):
-            how = mech_const_divisor(s) or mech_counter(s) or mech_const_ctor(s) or mech_lengths(s) or mech_const_clamp(s) or mech_position_index(s) or mech_guarded_sub(s) or mech_full_range(s) or mech_excluded_variant(s) or mech_widened(s) or mech_total_consumers(s) or mech_bounded_capacity(s) or mech_balanced_counter(s)
+            how = mech_const_divisor(s) or mech_counter(s) or mech_const_ctor(s) or mech_lengths(s) or mech_const_clamp(s) or mech_position_index(s) or mech_range_index(s) or mech_guarded_sub(s) or mech_full_range(s) or mech_excluded_variant(s) or mech_widened(s) or mech_total_consumers(s) or mech_bounded_capacity(s) or mech_balanced_counter(s)
             if how:
                 R.ok(rid, key, "mechanical: " + how, s.loc(), nontrivial=False)
                 continue
